@@ -615,7 +615,7 @@ func (w *worker) runConc(c Case) (class, detail string, got *tree.Node) {
 					w.early = i
 				}
 			}
-		case <-time.After(3 * time.Second):
+		case <-time.After(10 * time.Second):
 			// the running thread waits for something the paused thread holds (a lock): this switch point is not
 			// feasible. Let both run freely to completion - still a legal execution - and judge the end state.
 			w.c.mode = mFree
